@@ -195,6 +195,7 @@ class Gen:
                 ('name', p['w_name']), ('ifs', p['w_ifs']),
                 ('ifna', p['w_ifna']), ('concat', p.get('w_concat', 0)),
                 ('istype', p.get('w_istype', 0)),
+                ('textfn', p.get('w_textfn', 0)),
             ])
         d = depth - 1
         if kind == 'ref':
@@ -228,6 +229,10 @@ class Gen:
         if kind == 'concat':     # type-sensitive: display form of the operand
             return ['op', '&', ['op', '&', self.scalar_ref(i, host),
                                 ['s', '-']], self.scalar(i, host, d)]
+        if kind == 'textfn':     # number formats: parsed once, applied often
+            return ['f', 'TEXT', self.scalar(i, host, d),
+                    ['s', rng.pick(['0.00', '0', '0.0', '#,##0.00', '000',
+                                    '0.0%', '0.00E+00'])]]
         if kind == 'istype':
             return ['f', rng.pick(['ISLOGICAL', 'ISNUMBER', 'ISTEXT']),
                     self.scalar_ref(i, host)]
